@@ -25,7 +25,7 @@ MaxOf(S) == CHOOSE x \in S : \A y \in S : y <= x
 MinOf(S) == CHOOSE x \in S : \A y \in S : x <= y
 Vals == St.grid
 NV == Len(Vals)
-NCfg == IF MaxCfg = 0 THEN NV * NV * NV * NV ELSE MaxCfg
+NCfg == IF "recorded" \in DOMAIN St THEN Len(St.recorded) ELSE IF MaxCfg = 0 THEN NV * NV * NV * NV ELSE MaxCfg
 \* the j-th configuration of the grid (j from 0), mixed radix over RO, MW, FL, RST
 Cfg(j) == [RO |-> Vals[(j % NV) + 1], MW |-> Vals[((j \div NV) % NV) + 1], FL |-> Vals[((j \div (NV * NV)) % NV) + 1],
            RST |-> Vals[((j \div (NV * NV * NV)) % NV) + 1]]
@@ -66,8 +66,14 @@ IsBarrier(i) == N[i].kind = "Barrier"
 Overlap(a, b) == (IF a.s > b.s THEN a.s ELSE b.s) < (IF a.e < b.e THEN a.e ELSE b.e)
 Inside(p, b) == b.s < p.s /\ p.s < b.e                          \* a zero-length operation strictly inside a barrier
 
-CfgFails(cfg) ==
-  LET T == Times(cfg) IN
+\* If the fold and the code disagree on a sampled time (model drift), the driver records the code's own times for EVERY
+\* configuration of the grid and the predicates are evaluated on those: St.recorded[k+1] = [cfg, times].
+Recorded == "recorded" \in DOMAIN St
+TimesAt(j) == IF Recorded
+              THEN LET tm == St.recorded[j + 1].times IN [x \in DOMAIN tm |-> [s |-> tm[x][1], e |-> tm[x][2]]]
+              ELSE Times(Cfg(j))
+CfgFailsAt(j) ==
+  LET T == TimesAt(j) IN
   {<<"C10.overlap", p[1], p[2]>> : p \in {q \in Sharing : T[q[1]].e > T[q[1]].s /\ T[q[2]].e > T[q[2]].s /\ Overlap(T[q[1]], T[q[2]])}}
   \cup {<<"C10.barrier", p[1], p[2]>> : p \in {q \in Sharing : IsBarrier(q[2]) /\ T[q[1]].e = T[q[1]].s /\ Inside(T[q[1]], T[q[2]])}}
 
@@ -79,8 +85,8 @@ SampleFails ==
 
 Init == k = 0 /\ fails = (IF TopoOK THEN {} ELSE {<<"C10.topological_order", "", "", "">>})
 Step == /\ k < NCfg
-        /\ LET f == CfgFails(Cfg(k)) IN
-             fails' = IF f = {} \/ Cardinality(fails) > 40 THEN fails ELSE fails \cup {<<x[1], x[2], x[3], ToString(Cfg(k))>> : x \in f}
+        /\ LET f == CfgFailsAt(k) IN
+             fails' = IF f = {} \/ Cardinality(fails) > 40 THEN fails ELSE fails \cup {<<x[1], x[2], x[3], ToString(IF Recorded THEN St.recorded[k + 1].cfg ELSE Cfg(k))>> : x \in f}
         /\ k' = k + 1
 Done == /\ k = NCfg
         /\ JsonSerialize(IOEnv.VERIF_OUT, [configs |-> NCfg, sharing |-> Cardinality(Sharing), topo_ok |-> TopoOK,
